@@ -39,9 +39,19 @@ def decLines (f : String) : Option (List Spec.Line) :=
 
 def dedup (l : List Str) : List Str := l.foldl (fun acc x => if acc.contains x then acc else acc ++ [x]) []
 
-/-- all lookups on one paragraph, for its own keys and one absent key -/
+/-- ASCII letters with their case swapped -/
+def swapCase (k : Str) : Str :=
+  k.map fun c => if c.isUpper then c.toLower else if c.isLower then c.toUpper else c
+
+/-- the names looked up on a paragraph: its own names, their case-swapped variants, one absent name
+    (same list as harness/src/deb.rs `lookup_keys`) -/
+def lookupKeys (ks : List Str) : List Str :=
+  let own := dedup ks
+  dedup (own ++ own.map swapCase ++ ["Zz".toList])
+
+/-- all lookups on one paragraph, for its own keys, their case variants and one absent key -/
 def lookups (p : DNode) : String :=
-  let ks := dedup (keys p) ++ ["Zz".toList]
+  let ks := lookupKeys (keys p)
   "|".intercalate (ks.map fun k =>
     s!"{encOpt (get p k)}/{encList (getAll p k)}/{encBool (containsKey p k)}")
 
